@@ -539,6 +539,9 @@ func (s *Subscription) addReference(rid string) (*Subscription, error) {
 // event such as collection remove or model change.
 func (s *Subscription) removeReference(rid string) {
 	ref := s.refs[rid]
+	if ref == nil {
+		return
+	}
 	ref.count--
 	if ref.count == 0 {
 		s.c.Unsubscribe(ref.sub, false, s.IsSent(), 1, true)
